@@ -76,7 +76,10 @@ def make_spec(case):
                                "nonfinite"]))
         k = int(rng.integers(1, npt + 1))
         if trig == "target":
-            o["target"] = 1e30
+            o["target"] = 1e30 if rng.random() < 0.6 else float(
+                rng.uniform(-1, 5))
+            if rng.random() < 0.4:
+                o["feasibility_tol"] = 0.0
         elif trig == "feas":
             spec["obj"] = {"kind": "none"}
             if con == "none":
@@ -102,6 +105,8 @@ def make_spec(case):
             o["maxfev"] = 600
         elif trig == "target":
             o["target"] = float(rng.uniform(-1, 5))
+            if rng.random() < 0.4:
+                o["feasibility_tol"] = 0.0
         elif trig == "feas":
             spec["obj"] = {"kind": "none"}
             if con == "none":
